@@ -82,6 +82,15 @@ BracketedHost(b) == \E i \in 1..(Len(b) - 3) : b[i] = 58 /\ b[i + 1] = 47 /\ b[i
                                                 /\ \A j \in 1..(i - 1) : b[j] # 58
 C03isF4(e) == /\ ~C03ok(e) /\ e.no > 0 /\ BracketedHost(e.o1b)
               /\ C03okWith(e, LenientAllowed(e))
+\* Layered events: the middleware ran behind another layer (an outer middleware of this library, or a layer leaving behind what
+\* one leaves behind) that had already set response headers. e.resp is what the middleware EMITTED - added to or replaced in the
+\* header map it was handed - leaving out entries that are the very slices that were there before; e.resp2 counts those in
+\* (the middleware may have stored the same slice again). The response is in order if it is under either reading; with more
+\* than one such Access-Control-* entry the readings multiply and no verdict is given.
+Layered(e) == "layer" \in DOMAIN e
+Second(e) == [e EXCEPT !.resp = e.resp2, !.acaob = e.acaob2]
+C03layeredOk(e) == C03ok(e) \/ C03ok(Second(e)) \/ e.amb > 1
+C03layeredF4(e) == ~C03layeredOk(e) /\ (C03isF4(e) \/ C03isF4(Second(e)))
 
 (***************************************************************************)
 (* C16 - with debug off, preflight responses disclose nothing beyond what  *)
@@ -188,8 +197,8 @@ Serve ==
   /\ Ev("Serve")
   /\ LET e == Trace[l] IN
      CASE Prop = "C03" ->
-            /\ bad' = IF C03ok(e) \/ C03isF4(e) THEN bad ELSE bad \cup {l}
-            /\ known' = IF C03isF4(e) THEN known \cup {l} ELSE known
+            /\ bad' = IF C03ok(e) \/ C03isF4(e) \/ (Layered(e) /\ (C03layeredOk(e) \/ C03layeredF4(e))) THEN bad ELSE bad \cup {l}
+            /\ known' = IF C03isF4(e) \/ (Layered(e) /\ C03layeredF4(e)) THEN known \cup {l} ELSE known
             /\ stats' = [stats EXCEPT !.a = @ + (IF "ACAO" \in DOMAIN e.resp.hdrs THEN 1 ELSE 0),
                                       !.b = @ + (IF IsPreflightReq(e) THEN 1 ELSE 0)]
             /\ UNCHANGED <<block, failStatus>>
